@@ -1,0 +1,210 @@
+/*
+ * Verification hooks (runtime monitoring).  Compiled to nothing unless OPENSMT_VERIF_HOOKS is defined;
+ * with the guard on they are inert unless the environment variable OSMT_VERIF_TRACE names a file.
+ * The hooks only read solver state and never call into the solver.
+ *
+ * Trace lines (one event per line, <s> = id of the MainSolver instance the event belongs to):
+ *   D <s> <symbol> | <argsort>* | <retsort>     declaration of an uninterpreted symbol (first use)
+ *   PUSH <s> <frameId>    POP <s>
+ *   A <s> <frameId> <term>                      formula at MainSolver::insertFormula entry
+ *   R <s> <frameId> <term>                      root handed to the cnfizer (MainSolver::giveToSolver)
+ *   CHK <s> <answer> <active frame ids>         result of check-sat (Interpret::checkSat)
+ *   c <s> <kind> <lit>* 0                       clause stream, DIMACS-like literals ((var+1), negative if negated)
+ *        kind: i input, e derived by variable elimination/substitution, s strengthened, l learnt,
+ *              t theory clause, a assumptions of a solve call
+ *   T <s> <kind> <term>*                        the same theory clause as literal terms (disjunction)
+ *        kind: conflict reason split ded0 conf0
+ *   F <s> <n> { <coeff> <pol> <atom> }*         Farkas certificate of an arithmetic conflict
+ */
+#ifndef OPENSMT_VERIFHOOKS_H
+#define OPENSMT_VERIFHOOKS_H
+
+#ifdef OPENSMT_VERIF_HOOKS
+
+#include <atomic>
+#include <cstdio>
+#include <cstdlib>
+#include <set>
+#include <string>
+#include <utility>
+#include <vector>
+
+namespace opensmt::verif {
+
+struct Trace {
+    FILE * f = nullptr;
+    Trace() {
+        char const * path = std::getenv("OSMT_VERIF_TRACE");
+        if (path != nullptr and path[0] != '\0') {
+            f = std::fopen(path, "w");
+            if (f) { std::setvbuf(f, nullptr, _IOFBF, 1 << 16); }
+        }
+    }
+    ~Trace() {
+        if (f) { std::fclose(f); }
+    }
+    static Trace & get() {
+        static Trace t;
+        return t;
+    }
+};
+
+inline bool on() {
+    return Trace::get().f != nullptr;
+}
+
+inline std::atomic<int> solverCounter{0};
+inline thread_local int currentSolver = 0;
+inline thread_local int derivedDepth = 0;
+
+inline int newSolverId() {
+    return ++solverCounter;
+}
+
+struct Scope {
+    int prev;
+    explicit Scope(int id) : prev(currentSolver) { currentSolver = id; }
+    ~Scope() { currentSolver = prev; }
+};
+
+// while alive, clauses added through addOriginalClause_ are derived ones (variable elimination)
+struct DerivedScope {
+    DerivedScope() { ++derivedDepth; }
+    ~DerivedScope() { --derivedDepth; }
+};
+
+inline std::set<std::pair<void const *, unsigned>> & declared() {
+    static std::set<std::pair<void const *, unsigned>> s;
+    return s;
+}
+
+// Emit declarations for all uninterpreted symbols of tr not seen before
+template<typename LogicT, typename PTRefT>
+void decls(LogicT const & logic, PTRefT tr) {
+    FILE * f = Trace::get().f;
+    std::vector<PTRefT> stack{tr};
+    std::set<unsigned> seen;
+    while (not stack.empty()) {
+        PTRefT cur = stack.back();
+        stack.pop_back();
+        if (not seen.insert(cur.x).second) { continue; }
+        auto const & t = logic.getPterm(cur);
+        auto sym = t.symb();
+        auto const & s = logic.getSym(sym);
+        if (not s.isInterpreted() and not logic.isConstant(sym)) {
+            if (declared().insert({static_cast<void const *>(&logic), sym.x}).second) {
+                std::fprintf(f, "D %d %s |", currentSolver, logic.protectName(sym).c_str());
+                for (unsigned i = 0; i < s.nargs(); ++i) {
+                    std::fprintf(f, " %s", logic.sortToString(s[i]).c_str());
+                }
+                std::fprintf(f, " | %s\n", logic.sortToString(s.rsort()).c_str());
+            }
+        }
+        for (auto child : t) {
+            stack.push_back(child);
+        }
+    }
+}
+
+template<typename LogicT, typename PTRefT>
+void term(char const * tag, unsigned frame, LogicT const & logic, PTRefT tr) {
+    if (not on()) { return; }
+    decls(logic, tr);
+    std::fprintf(Trace::get().f, "%s %d %u %s\n", tag, currentSolver, frame, logic.termToSMT2String(tr).c_str());
+}
+
+inline void event(char const * text) {
+    if (not on()) { return; }
+    std::fprintf(Trace::get().f, "%s\n", text);
+}
+
+inline void eventId(char const * tag, long a = -1) {
+    if (not on()) { return; }
+    if (a >= 0) {
+        std::fprintf(Trace::get().f, "%s %d %ld\n", tag, currentSolver, a);
+    } else {
+        std::fprintf(Trace::get().f, "%s %d\n", tag, currentSolver);
+    }
+}
+
+// literals: any range of Lit (minisat: var(l), sign(l) via l.x encoding 2*var+sign)
+template<typename LitRange>
+void clause(char kind, LitRange const & lits) {
+    if (not on()) { return; }
+    FILE * f = Trace::get().f;
+    std::fprintf(f, "c %d %c", currentSolver, kind);
+    for (auto l : lits) {
+        int v = (l.x >> 1) + 1;
+        std::fprintf(f, " %d", (l.x & 1) ? -v : v);
+    }
+    std::fprintf(f, " 0\n");
+}
+
+template<typename ClauseT>
+void clauseRef(char kind, ClauseT const & c) {
+    if (not on()) { return; }
+    FILE * f = Trace::get().f;
+    std::fprintf(f, "c %d %c", currentSolver, kind);
+    for (unsigned i = 0; i < c.size(); ++i) {
+        auto l = c[i];
+        int v = (l.x >> 1) + 1;
+        std::fprintf(f, " %d", (l.x & 1) ? -v : v);
+    }
+    std::fprintf(f, " 0\n");
+}
+
+// theory clause given as literals: prints both the literal form (for the RUP checker) and the term form
+template<typename THandlerT, typename LitRange>
+void theoryClause(char const * kind, THandlerT & th, LitRange const & lits) {
+    if (not on()) { return; }
+    FILE * f = Trace::get().f;
+    auto const & logic = th.getLogic();
+    for (auto l : lits) {
+        decls(logic, th.varToTerm(l.x >> 1));
+    }
+    clause('t', lits);
+    std::fprintf(f, "T %d %s", currentSolver, kind);
+    for (auto l : lits) {
+        auto tr = th.varToTerm(l.x >> 1);
+        if (l.x & 1) {
+            std::fprintf(f, " (not %s)", logic.termToSMT2String(tr).c_str());
+        } else {
+            std::fprintf(f, " %s", logic.termToSMT2String(tr).c_str());
+        }
+    }
+    std::fprintf(f, "\n");
+}
+
+// theory clause justified only by the level-0 trail: (not t1) ... (not tn) [implied]
+template<typename THandlerT, typename TrailT, typename LitT>
+void trailClause(char const * kind, THandlerT & th, TrailT const & trail, LitT implied, bool hasImplied) {
+    if (not on()) { return; }
+    std::vector<LitT> lits;
+    for (int i = 0; i < trail.size(); ++i) {
+        LitT l = trail[i];
+        if (th.isDeclared(l.x >> 1)) {
+            LitT neg = l;
+            neg.x ^= 1;
+            lits.push_back(neg);
+        }
+    }
+    if (hasImplied) { lits.push_back(implied); }
+    theoryClause(kind, th, lits);
+}
+
+} // namespace opensmt::verif
+
+#define OPENSMT_VERIF(code)                                                                                            \
+    do { code; } while (false)
+#define OPENSMT_VERIF_DECL(code) code
+
+#else
+
+#define OPENSMT_VERIF(code)                                                                                            \
+    do {                                                                                                               \
+    } while (false)
+#define OPENSMT_VERIF_DECL(code)
+
+#endif // OPENSMT_VERIF_HOOKS
+
+#endif // OPENSMT_VERIFHOOKS_H
